@@ -688,7 +688,12 @@ pub fn v1_case(ctx: &mut Ctx, fp: &FamParams, seed: u64, reps: usize) {
             other => ctx.oracle_fail(&format!("pk-roundtrip-rejected:v1:{fname}"), "proving key (V1 floor planner) written then read was rejected", json!({"case": desc, "result": format!("{:?}", other.map(|r| r.map(|_| "ok").map_err(|e| e.to_string())))})),
         }
     }
-    // one proof
+    // one proof (the InstRot gate's witness is only valid for the layout of the simple floor
+    // planner: it reads the instance column at the absolute rows of the first region)
+    if fp.gates.contains(&mzkh::family::GateKind::InstRot) {
+        ctx.count("v1:proof-skipped-layout-dependent-witness");
+        return;
+    }
     let wc = V1Fam(FamCircuit::new(fp.clone(), seed + 5));
     let insts = wc.0.instances();
     let refs: Vec<&[F]> = insts.iter().map(|c| &c[..]).collect();
